@@ -86,15 +86,36 @@ def strip_comments(src: str) -> str:
     return re.sub(r"--.*", "", "".join(out))
 
 
-def grep_banned() -> list[str]:
+def import_closure(module: str) -> list[str]:
+    """files of the Kio.* modules `module` transitively imports (itself included)"""
+    seen, todo, files = set(), [module], []
+    while todo:
+        m = todo.pop()
+        if m in seen or not (m == "Kio" or m.startswith("Kio.")):
+            continue
+        seen.add(m)
+        p = os.path.join(LEAN_DIR, *m.split(".")) + ".lean"
+        if not os.path.exists(p):
+            continue
+        files.append(p)
+        for line in open(p):
+            mm = re.match(r"\s*import\s+([\w.]+)", line)
+            if mm:
+                todo.append(mm.group(1))
+    return files
+
+
+def grep_banned(module: str | None = None) -> list[str]:
+    """banned constructs (sorry, axiom, native_decide …) in the sources the module depends on"""
     hits = []
-    for root, _, files in os.walk(os.path.join(LEAN_DIR, "Kio")):
-        for f in files:
-            if f.endswith(".lean"):
-                p = os.path.join(root, f)
-                src = strip_comments(open(p).read())
-                for m in BANNED.finditer(src):
-                    hits.append(f"{os.path.relpath(p, LEAN_DIR)}: {m.group(0).strip()}")
+    if module:
+        paths = import_closure(module)
+    else:
+        paths = [os.path.join(r, f) for r, _, fs in os.walk(os.path.join(LEAN_DIR, "Kio")) for f in fs if f.endswith(".lean")]
+    for p in paths:
+        src = strip_comments(open(p).read())
+        for m in BANNED.finditer(src):
+            hits.append(f"{os.path.relpath(p, LEAN_DIR)}: {m.group(0).strip()}")
     return hits
 
 
